@@ -175,7 +175,7 @@ results = ck.coq_cases_parallel(files, timeout=3000, jobs=nshard) if files else 
 for i, r, k, tr in failing[:16]:
     rc, out = results["reject%d" % i]
     val = ck.printed_value(out, "F%d" % i) or ""
-    m = re.match(r"Some \((\d+), (true|false)\)", val)
+    m = re.match(r"Some \((\d+)(?:%nat)?, (true|false)\)", val)
     idx = int(m.group(1)) if m else None
     skipdiff = bool(m and m.group(2) == "true")
     crashed = r.get("TimedOut") or r.get("Exit") not in (0, 1)
